@@ -172,6 +172,26 @@ def rule_compact(R):
     okw = len(offs) == 1 and len(used) == 1 and cursor_term is not None and is_cursor(offs[0][1]) and is_cursor(used[0][1])
     R.ob("compact/bookkeeping", okw,
          "after the move the entry's offset is the cursor, and when the loop ends `used` is the cursor", where=b.span)
+    # no way around the pass: every return has stored `used = cursor` (so the whole list was walked) -- except an early
+    # exit taken when `used` already equals the sum of the entries' lengths (nothing to reclaim)
+    uac = roles.method(f, OUTBOUND, "used_after_compact")
+    just = []
+    for sb in b.switches:
+        if sb not in b.reachable:
+            continue
+        si = b.switch_info(sb)
+        sj = peel(si["subject"])
+        if sj[0] == "bin" and sj[1] in ("Eq", "Ne"):
+            sides = [peel(sj[2]), peel(sj[3])]
+            if any(chain(x)[1] == ["used"] for x in sides) and any(x[0] == "call" and x[2] == uac.name for x in sides):
+                e = si["edges"].get(sj[1] == "Eq")
+                if e is not None:
+                    just.append((sb, e))
+    okp = bool(used) and b.must_pass([0], b.returns, via_blocks=[u[0] for u in used], via_edges=just)[0]
+    R.ob("compact/no-shortcut", okp,
+         "compact() returns only after walking the whole retained list (or when `used` already equals the sum of the "
+         "entries' lengths): a shortcut that looks at the first and last entry only leaves holes in the middle unreclaimed, "
+         "and the free tail the CONNECT and QoS 0 scratch rely on stays short", where=b.span)
     okc = False
     if cursor_term is not None:
         for alt in phi_alts(cursor_term):
@@ -357,7 +377,16 @@ def rule_release(R):
     clause_remove_then_report(R, "slots/released")
 
 
+def rule_quota(R):
+    """in-flight slots do not leak: the number of replayed publishes taken off the fresh window is counted after the
+    decision to keep or discard the old session was applied -- a count taken before the reset charges the new session for
+    packets that no longer exist, and nothing gives those slots back (shared with C06 / C12)"""
+    from .c06 import clause_inflight_read_after_reset
+    clause_inflight_read_after_reset(R, "quota/inflight-read-after-reset")
+
+
 def run(R):
+    R.rule("quota", rule_quota)
     R.rule("release", rule_release)
     R.rule("slots", rule_slots)
     R.rule("arena-order", rule_arena_order)
